@@ -206,7 +206,17 @@ def e2e_spec(rng, benign=None):
                     twin = rng.choice([twin, twin.lower(), twin + '_sdn_1_'])
                     if twin not in [x for x, _ in cables]:
                         cables.insert(rng.randrange(len(cables) + 1), [twin, 1])
-            defs.append({'name': dn, 'ports': e2e_scope(rng, rng.randint(0, 3), benign), 'cables': cables,
+            ports = e2e_scope(rng, rng.randint(0, 3), benign)
+            defs.append({'name': dn, 'ports': ports, 'cables': cables,
                          'insts': e2e_scope(rng, rng.randint(0, 4), benign)})
+            if rng.random() < 0.5:
+                # the identifiers are also what the file uses to REFER to a port: array ports ((array nameDef n), members
+                # addressed as (member id k)), every direction the format knows, and the ports' own pins joined to the
+                # nets of the cell (portref id / portref (member id k)), next to the (portref .. (instanceref ..)) of the
+                # instances. width 1 with array=True is the one-pin array port.
+                defs[-1]['widths'] = [rng.choice([1, 1, 2, 3]) for _ in ports]
+                defs[-1]['arrays'] = [w > 1 or rng.random() < 0.2 for w in defs[-1]['widths']]
+                defs[-1]['dirs'] = [rng.choice(['in', 'out', 'inout']) for _ in ports]
+                defs[-1]['join_ports'] = rng.random() < 0.7
         libs.append({'name': ln, 'defs': defs})
     return {'netlist': e2e_name(rng, [], benign), 'top': e2e_name(rng, [], benign), 'libs': libs, 'benign': benign}
